@@ -352,24 +352,30 @@ def decodeCmd : W α → Option (Cmd α)
   | .obj kvs => kvs.foldl decodeCmdStep (some {})
   | _ => none
 
-/-! ## the nine command shapes of the property (plus three combinations the API also allows) -/
+/-! ## the nine command shapes of the property, plus the six combinations the API also allows: together every
+    way of calling the three builders in which an argument is not ignored (see `CmdGrid.lean`) -/
 
 inductive Shape
   | read | readSel | readEl | reply | full | part | partSel | delSel | delEl
   | readSelEl | replyPartial | delSelPartSel
+  | partSelDelEl | delSelDelEl | delSelPartSelDelEl
 deriving Repr, DecidableEq
 
 def Shape.nine : List Shape := [.read, .readSel, .readEl, .reply, .full, .part, .partSel, .delSel, .delEl]
-def Shape.all : List Shape := Shape.nine ++ [.readSelEl, .replyPartial, .delSelPartSel]
+def Shape.all : List Shape := Shape.nine ++ [.readSelEl, .replyPartial, .delSelPartSel,
+  .partSelDelEl, .delSelDelEl, .delSelPartSelDelEl]
 
 def Shape.usesSel : Shape → Bool
   | .readSel | .partSel | .delSel | .readSelEl | .delSelPartSel => true
+  | .partSelDelEl | .delSelDelEl | .delSelPartSelDelEl => true
   | _ => false
 def Shape.usesEl : Shape → Bool
   | .readEl | .delEl | .readSelEl => true
+  | .partSelDelEl | .delSelDelEl | .delSelPartSelDelEl => true
   | _ => false
 def Shape.usesDelete : Shape → Bool
   | .delSel | .delEl | .delSelPartSel => true
+  | .partSelDelEl | .delSelDelEl | .delSelPartSelDelEl => true
   | _ => false
 
 def expectRow? (fn : FnRow) : Option ExpectRow := filterExpect.find? (fun e => Nat.beq e.fn fn.key)
@@ -414,6 +420,9 @@ def build (cfg : Cfg) (fn : FnRow) (sh : Shape) (a : Args α) : Except Panic (Cm
   | .delSel => notifyOrWriteCmd cfg fn a.data sel none false none
   | .delEl => notifyOrWriteCmd cfg fn a.data none none false el
   | .delSelPartSel => notifyOrWriteCmd cfg fn a.data sel sel2 false none
+  | .partSelDelEl => notifyOrWriteCmd cfg fn a.data none sel false el
+  | .delSelDelEl => notifyOrWriteCmd cfg fn a.data sel none false el
+  | .delSelPartSelDelEl => notifyOrWriteCmd cfg fn a.data sel sel2 false el
 
 /-- what the receiving side recognises (`CmdType.Data`, `ExtractFilter`, `FilterType.Data`) -/
 structure Recognised (α : Type) where
@@ -465,6 +474,9 @@ def expected (fn : FnRow) (sh : Shape) (a : Args α) : Recognised α :=
   | .delSel => { r with delete := some (sel, none) }
   | .delEl => { r with delete := some (none, el) }
   | .delSelPartSel => { r with delete := some (sel, none), part := some (sel2, none) }
+  | .partSelDelEl => { r with delete := some (none, el), part := some (sel, none) }
+  | .delSelDelEl => { r with delete := some (sel, el) }
+  | .delSelPartSelDelEl => { r with delete := some (sel, el), part := some (sel2, none) }
 
 /-- build, encode, decode, recognise -/
 def roundtrip (cfg : Cfg) (fn : FnRow) (sh : Shape) (a : Args α) : Except Panic (Option (Recognised α)) :=
